@@ -15,6 +15,7 @@
    controlled scheduler (engine sched, scenario snap). *)
 From stdpp Require Import gmap list sorting.
 From ColumnV Require SnapCut Conc.
+From ColumnV Require Import GenShape.
 Local Open Scope N_scope.
 
 Theorem c08_restored_is_a_prefix : ∀ s l n,
@@ -36,3 +37,11 @@ Example c08_example :
   let s2 := SnapCut.mkst [1; 2; 3; 4] 4 None 2 (Some 3%nat) (Some [3; 4]) in
   take 3 (SnapCut.hist s2) ++ filter (λ i, SnapCut.lastid (take 3 (SnapCut.hist s2)) < i) [3; 4] = [1; 2; 3; 4].
 Proof. vm_compute. done. Qed.
+
+(* the protocol model draws a fresh id inside every block's latch; regenerated from the source on
+   every run: in rangeWrite the id is drawn by a statement of the per-block callback itself, between
+   the latch's Lock and Unlock, the commit callback runs there too, and both Append calls follow the
+   apply steps inside it *)
+Theorem c08_shape : shape_id_drawn_under_latch = true ∧ shape_callback_under_latch = true ∧ shape_appends_after_apply_inside_latch = true.
+Proof. repeat split; reflexivity. Qed.
+Print Assumptions c08_shape.
